@@ -220,7 +220,7 @@ pub fn run(ctx: &Ctx) -> (Stats, Report) {
 
     // YM: all values (thorough) / strided + windows (quick)
     let total = (2 * ymax + 1) as u64;
-    let stride: u64 = if ctx.thorough { 1 } else { 199 };
+    let stride: u64 = if ctx.thorough { 1 } else { 67 };
     let count = (total + stride - 1) / stride;
     let s = par_sweep(count, 1 << 18, |range, st| {
         for k in range {
@@ -260,7 +260,7 @@ pub fn run(ctx: &Ctx) -> (Stats, Report) {
     st.section("year_month_values", &mut mark);
 
     // DT values
-    let mut vals: Vec<i128> = pools::dt_pool(seed, if ctx.thorough { 150_000_000 } else { 3_000_000 });
+    let mut vals: Vec<i128> = pools::dt_pool(seed, if ctx.thorough { 150_000_000 } else { 12_000_000 });
     for unit in [US_PER_SEC, US_PER_MIN, US_PER_HOUR, US_PER_DAY] {
         for k in [1i128, 2, 3, 23, 24, 25, 59, 60, 61, 99, 100, 1000, 99_999_999] {
             for d in [-1i128, 0, 1] {
